@@ -13,9 +13,10 @@ for l in open(os.path.join(ROOT, "properties.jsonl")):
     if not os.path.isdir(wt):
         continue
     prev = "\n".join("* %s -- needed: %s" % (v[0], v[1]) for k, v in sorted(NOTES.items()) if k.startswith(pid + "-")) or "(none)"
+    others = "\n".join("* %s" % v[0] for k, v in sorted(NOTES.items()) if not k.startswith(pid + "-") and "same edit as" not in v[0]) or "(none)"
     anchors = p["anchors"]
     mech = "\n".join("* %s (%s)" % (m["name"], m["where"]) for m in anchors.get("mechanism", []))
     txt = TEMPLATE.replace("{PID}", pid).replace("{TITLE}", p["title"]).replace("{STATEMENT}", p["statement"]).replace("{QUANT}", (p.get("quantifier") or {}).get("text", "")) \
-        .replace("{FILES}", ", ".join(anchors.get("files", []))).replace("{MECH}", mech).replace("{PREV}", prev).replace("{WT}", wt)
+        .replace("{FILES}", ", ".join(anchors.get("files", []))).replace("{MECH}", mech).replace("{PREV}", prev).replace("{OTHERS}", others).replace("{WT}", wt)
     open(os.path.join(wt, "TASK.md"), "w").write(txt)
     print("wrote", wt + "/TASK.md")
